@@ -203,6 +203,9 @@ def fuse_comprehensions(t: "T") -> "T":
             return T(lit.op, lit.name, list(lit.args)[slice(lo, hi, st)], node=t.node)
     if t.op == "elem" and args and args[0].op == "comp" and len(args[0].args) == 2:
         return args[0].args[0]
+    # an element of list(X) / tuple(X) is an element of X  (`pairs = list(zip(a, b)); for p, q in pairs`)
+    if t.op == "elem" and args and args[0].op == "call" and args[0].name in ("list", "tuple") and len(args[0].args) == 1 and not args[0].kw:
+        return fuse_comprehensions(T("elem", None, [args[0].args[0]], node=t.node))
     # `for k, v in d.items()`: v == d[k]
     if t.op == "item" and t.name == 1 and args and args[0].op == "elem" and args[0].args[0].op == "mcall" and \
             args[0].args[0].name == "items" and len(args[0].args[0].args) == 1:
